@@ -16,9 +16,10 @@ but `MirModel/Effects.lean`: names, aliasing, in-place writes, module state, cal
                           with the initial one on all caller-owned objects and on the global state.
 * `gen_*`               — G-obligations on the program regenerated from the current source.
 
-Known findings (the full-strength statement is false of the unchanged code): `melody.freq_to_voicing`,
-`melody.to_cent_voicing`, `melody.evaluate` (write `est_voicing` / `ref_reward`), `util.adjust_intervals`,
-`util.adjust_events`, `chord.evaluate` (append to the caller's `labels`).
+The defects this slice found on the snapshot (`melody.freq_to_voicing` & callers writing `est_voicing` /
+`ref_reward`; `util.adjust_intervals` / `adjust_events` / `chord.evaluate` appending to the caller's `labels`;
+`bss_eval_images_framewise` returning an unwritten `np.empty` column) were repaired by `fix:` commits; the
+G-obligations below are now stated at full strength.
 -/
 
 namespace Mir.C15
@@ -170,85 +171,38 @@ open MirGen.Effects in
 /-- the summary table proposed by the translator is a post-fixpoint of the analysis of the current source -/
 theorem gen_table_valid : validTable prog table = true := table_valid
 
-/-- functions the analysis (correctly) refuses: genuine defects, see known_findings.json -/
-def knownUnsafe : List Nat :=
-  open MirGen.Effects in
-  [id_melody_freq_to_voicing, id_melody_to_cent_voicing, id_melody_evaluate,
-   id_util_adjust_intervals, id_util_adjust_events, id_chord_evaluate]
-
-/-- functions that are pure on valid inputs but that the path-insensitive analysis cannot prove
-    (`adjust_intervals(…, t_min=0.0)` re-slices `labels` whenever the intervals are non-negative;
-    `intersect_files` stores path strings): covered by the runtime oracle only, listed as UNPROVED -/
+/-- the one public function that is pure on valid inputs but that the analysis cannot prove
+    (`util.intersect_files` stores path strings taken from its argument lists into new lists and appends to
+    those; that the items are immutable strings is not documented in a form the translator reads):
+    covered by the runtime oracle only, listed as UNPROVED -/
 def unproved : List Nat :=
   open MirGen.Effects in
-  [id_hierarchy_evaluate, id_segment_evaluate, id_util_intersect_files]
+  [id_util_intersect_files]
 
 open MirGen.Effects in
-/-- full-strength G-obligation: *every* public function is safe.  False of the unchanged code (known
-    findings), therefore kept as a proposition; its negation and the strongest true version follow. -/
-def gen_public_safe_full_statement : Prop := ∀ f, f ∈ publicIds → safeWith table prog f = true
-
-open MirGen.Effects in
-theorem gen_public_safe_full_statement_false : ¬ gen_public_safe_full_statement := by
-  intro h
-  have h1 := h id_melody_freq_to_voicing (by decide +kernel)
-  simp only [safeWith, Bool.and_eq_true] at h1
-  exact absurd h1.2 (by decide +kernel)
-
-open MirGen.Effects in
-/-- every public function of the task modules, util, sonify and separation outside the two lists is safe -/
-theorem gen_public_safe_partial :
-    ∀ f, f ∈ publicIds → f ∉ knownUnsafe → f ∉ unproved → safeWith table prog f = true := by
-  have h : (publicIds.filter fun f => !knownUnsafe.contains f && !unproved.contains f).all
-      (fun f => pureAt table f) = true := by decide +kernel
-  intro f hf hk hu
+/-- **Every** public function of the task modules, util, sonify and separation (but `intersect_files`, see
+    `unproved`) is safe.  Since the `fix:` commits c44e6a6 (freq_to_voicing copies `voicing`) and aa0fc9a
+    (adjust_intervals / adjust_events copy `labels`) this holds without excluding any known finding. -/
+theorem gen_public_safe : ∀ f, f ∈ publicIds → f ∉ unproved → safeWith table prog f = true := by
+  have h : (publicIds.filter fun f => !unproved.contains f).all (fun f => pureAt table f) = true := by
+    decide +kernel
+  intro f hf hu
   simp only [safeWith, gen_table_valid, Bool.true_and]
   rw [List.all_eq_true] at h
   apply h
-  simp [List.mem_filter, hf, hk, hu]
+  simp [List.mem_filter, hf, hu]
 
 open MirGen.Effects in
-/-- The flag on `melody.freq_to_voicing` is not an artefact of the abstraction: the full-strength purity
-    statement for the function the translator generated from the current source … -/
-def freq_to_voicing_pure_full_statement : Prop :=
-  ∀ (genv : Var → Option Nat) (locs : List Nat) (heap : Nat → Nat) (next gver : Nat) (s' : State) (o : Out),
-    (∀ l, l ∈ locs → l < next) →
-    Exec prog genv f_melody_freq_to_voicing.body
-      (entryState prog genv f_melody_freq_to_voicing locs heap next gver) s' o →
-    ∀ l, l ∈ locs → s'.heap l = heap l
-
-open MirGen.Effects in
-/-- … is false: called with `frequencies` at location 5 and `voicing` at location 6 it has an execution
-    (the `voicing is not None` branch) that bumps the version of location 6.  The concrete witness
-    `freq_to_voicing([0, 100], voicing=[1, 1])` is replayed against the real code on every run
-    (known_findings.json). -/
-theorem freq_to_voicing_pure_full_statement_false : ¬ freq_to_voicing_pure_full_statement := by
-  intro h
-  have hb : f_melody_freq_to_voicing.body =
-      .seq (.assign 18 (.alias [16])) (.seq (.assign 19 (.alias [17]))
-        (.seq (.ite (.mutate 17) (.block [.assign 17 (.fresh []), .assign 19 (.fresh [])])) (.ret [17, 19]))) := rfl
-  have hex : ∃ s', Exec prog (fun _ => none) f_melody_freq_to_voicing.body
-      (entryState prog (fun _ => none) f_melody_freq_to_voicing [5, 6] (fun _ => 0) 7 0) s' (.ret 6) ∧
-      s'.heap 6 = 1 := by
-    rw [hb]
-    refine ⟨_, Exec.seq_norm (Exec.assign_alias (v := 16) (l := 5) _ (by simp) ?_)
-      (Exec.seq_norm (Exec.assign_alias (v := 17) (l := 6) _ (by simp) ?_)
-        (Exec.seq_norm (Exec.ite_l (Exec.mutate (x := 17) (l := 6) _ ?_))
-          (Exec.ret_alias (v := 17) (l := 6) _ (by simp) ?_))), ?_⟩
-    · simp [entryState, bindParams, f_melody_freq_to_voicing]
-    · simp [entryState, bindParams, f_melody_freq_to_voicing, upd]
-    · simp [entryState, bindParams, f_melody_freq_to_voicing, upd]
-    · simp [entryState, bindParams, f_melody_freq_to_voicing, upd]
-    · simp [entryState, bump]
-  obtain ⟨s', he, h6⟩ := hex
-  have := h (fun _ => none) [5, 6] (fun _ => 0) 7 0 s' (.ret 6) (by simp) he 6 (by simp)
-  simp [h6] at this
-
-open MirGen.Effects in
-/-- the refused functions are refused *because they may write a parameter* (not because the analysis
-    gave up): the full-strength obligation `safe` is false of them -/
-theorem gen_known_unsafe_flagged :
-    ∀ f, f ∈ knownUnsafe → (table.getD f {}).fail = false ∧ (table.getD f {}).wr ≠ [] := by decide +kernel
+/-- the functions that used to write their caller's objects are now proved safe by name (a regression
+    breaks this theorem even if the lists above were edited) -/
+theorem gen_repaired_safe :
+    ∀ f, f ∈ [id_melody_freq_to_voicing, id_melody_to_cent_voicing, id_melody_evaluate,
+              id_util_adjust_intervals, id_util_adjust_events, id_chord_evaluate,
+              id_hierarchy_evaluate, id_segment_evaluate] → safeWith table prog f = true := by
+  intro f hf
+  simp only [safeWith, gen_table_valid, Bool.true_and]
+  revert f
+  decide +kernel
 
 open MirGen.Effects in
 /-- no public function writes module-level state or a module-level object -/
@@ -275,20 +229,9 @@ example : initOKFun ⟨[], .seq (.allocEmpty 0) (.seq (.loop (.seq (.loop (.fill
     (.ret [0]))⟩ = false := by decide
 
 open MirGen.Effects in
-/-- full-strength G-obligation for `np.empty` buffers; false of the unchanged code -/
-def gen_init_ok_full_statement : Prop := ∀ f, f ∈ publicIds → initOK prog f = true
-
-open MirGen.Effects in
-/-- known finding: `separation.bss_eval_images_framewise` leaves `isr[:, k]` unwritten on the branch taken
-    for silent windows and returns it -/
-theorem gen_init_ok_full_statement_false : ¬ gen_init_ok_full_statement := by
-  intro h
-  exact absurd (h id_separation_bss_eval_images_framewise (by decide +kernel)) (by decide +kernel)
-
-open MirGen.Effects in
-/-- every public function but that one fills each `np.empty` buffer before reading it -/
-theorem gen_init_ok_partial :
-    ∀ f, f ∈ publicIds → f ≠ id_separation_bss_eval_images_framewise → initOK prog f = true := by
+/-- **Every** public function fills each `np.empty` buffer before reading it (since `fix:` b910d54
+    `bss_eval_images_framewise` also writes `isr[:, k]` on silent windows). -/
+theorem gen_init_ok : ∀ f, f ∈ publicIds → initOK prog f = true := by
   decide +kernel
 
 end Mir.C15
